@@ -149,6 +149,8 @@ class State:
         s.qfacts = list(self.qfacts)
         if 'elem_lemmas' in self.__dict__:
             s.elem_lemmas = list(self.elem_lemmas)
+        if '_card' in self.__dict__:
+            s._card = {k: list(v) for k, v in self._card.items()}
         if '_fi_done' in self.__dict__:
             s._fi_done = set(self._fi_done)
         return s
@@ -238,6 +240,8 @@ class Engine:
             return self.arr_to_V(v)
         if getattr(v, 'is_dictsym', False):
             return v.t
+        if hasattr(v, 'labels') and hasattr(v, 'data'):
+            return v.data
         raise Unsupported('to_V(%r)' % (v,))
 
     def fresh_like(self, v, base, taint=None):
@@ -331,6 +335,8 @@ class Engine:
                 st._fi_done = set(st2._fi_done)
         if len(getattr(st2, 'elem_lemmas', [])) > len(getattr(st, 'elem_lemmas', [])):
             st.elem_lemmas = list(st2.elem_lemmas)
+        if '_card' in st2.__dict__:
+            st._card = {k: list(v) for k, v in st2._card.items()}
         extra_facts = st2.path[len(st.path):]
         t = self.truth(st2, v)
         # facts introduced while evaluating the spec (ground axioms of opaque terms) are sound to assume
@@ -451,6 +457,8 @@ class Engine:
 
     def store_item(self, st, target_expr, o, k, val, node):
         """x[k] = v : functional update of the variable holding x (x is a local container)."""
+        if hasattr(o, 'labels') and hasattr(o, 'data'):
+            return            # masked / indexed assignment into an n-d array keeps its axes
         if isinstance(o, DictV):
             ck = self.const_key(k)
             if ck is not None:
@@ -908,6 +916,8 @@ class Engine:
                 return Num(-v.t, npy=v.npy, taint=v.taint, ghost=v.ghost)
             if hasattr(v, '_at'):
                 return self.arr_unary(st, 'neg', v)
+            if hasattr(v, 'labels') and self.hooks and hasattr(self.hooks, 'binop'):
+                return self.hooks.binop(self, st, ast.Mult(), Num(z3.IntVal(-1)), v, e)
             return Obj(self.uf('neg', V, V)(self.to_V(v)), taint=v.taint, ghost=getattr(v, 'ghost', None))
         if isinstance(e.op, ast.Invert):
             return Obj(self.uf('invert', V, V)(self.to_V(v)), taint=v.taint)
@@ -1450,6 +1460,15 @@ class Engine:
                 res = Num(term, taint=tt)
             elif rs == B:
                 res = BoolV(term, taint=tt)
+            elif rty.startswith('seq:') or rty.startswith('arr:') or rty.startswith('dict:'):
+                cache = self.__dict__.setdefault('_pure_seq', {})
+                kk = term.sexpr()
+                if kk not in cache:
+                    self.counter += 1
+                    cache[kk] = self.typed(rty, 'ret_%s!%d' % (key.strip('.').replace('.', '_'), self.counter), taint=tt)
+                res = cache[kk]
+                if z3.is_expr(getattr(res, 'n', None)):
+                    st.assume(res.n >= 0)
             else:
                 res = Obj(term, cls=rty[4:] or None, taint=tt)
         else:
